@@ -32,6 +32,8 @@ def plan(tier):
                               weight=w, timeout_s=900, opts=dict(max_vars=72)))
     for qu in QUERIES:
         I.append(inst(f"query[{qu},n=2]", 'harness.c11', 'queries', dict(n=2 if qu != 'origin_to' else 1, query=qu), weight=10, timeout_s=900))
+    for qu in ('hyperboloid', 'klein', 'segment', 'geodesic'):
+        I.append(inst(f"ideal-query[{qu}]", 'harness.c11', 'ideal_queries', dict(n=2, query=qu), weight=10, timeout_s=900))
     return dict(
         instances=I,
         explanation=("bounded symbolic verification: projective / hyperbolic Polygon, Segment and TangentVector objects with symbolic entries go through every "
